@@ -13,7 +13,7 @@ suite = {}
 if os.path.exists("/tmp/seed_suite.jsonl"):
     for l in open("/tmp/seed_suite.jsonl"):
         d = json.loads(l)
-        k = int(d["dir"].split("/")[-1]) + (2 if "/seeds2/" in d["dir"] else 4 if "/seeds3/" in d["dir"] else 0)   # round 2: <id>-3/-4, round 3: <id>-5/-6
+        k = int(d["dir"].split("/")[-1]) + (2 if "/seeds2/" in d["dir"] else 4 if "/seeds3/" in d["dir"] else 6 if "/seeds4/" in d["dir"] else 0)   # round 2: <id>-3/-4, round 3: <id>-5/-6
         suite[d["dir"].split("/")[-2] + "-" + str(k)] = d
 rows = []
 for d in sorted(glob.glob(os.path.join(VERIF, "seeded", "C*-*"))):
